@@ -45,6 +45,9 @@ def handleLouv : P String := do
   let res ← P.rat
   let _seed ← P.next
   let perms ← P.listOf (P.listOf P.nat)
+  -- the implementation saw every weight divided by `wden`; modularity and the gain comparisons are invariant under a common
+  -- scaling of the weights, so the model and the checker work on the integer numerators
+  let _wden ← P.nat
   let rest ← get
   let (so, a) := buildBoth sp nodes edges
   -- the step-level model (exact arithmetic; default threshold 1e-7)
